@@ -105,6 +105,7 @@ type c27Case struct {
 	kind  string // def/A1… or red/R0…
 	wrapped bool // reductions: the reducible expression sits under another operator
 	big     bool // large values with a small spread (time()): tight tolerance
+	inf     bool // infinities as values
 	node  c27Node
 	rule  int    // reductions: expected rule
 	op    string // reductions: key part
@@ -183,9 +184,41 @@ func (g *c27Gen) bigCase() c27Case {
 	}
 }
 
+// infCase: infinities as real values (a series divided by zero, overflow): groups / windows whose
+// present points are all +Inf, all -Inf, mixed (sum, avg, stddev: NaN by IEEE), mixed with finite
+// values and with missing points, for every aggregator and over-time function
+func (g *c27Gen) infCase() c27Case {
+	s := g.sel(g.rnd.IntN(4) == 0)
+	if s.metric == "m" && g.rnd.IntN(2) == 0 {
+		s.what = g.pick([]string{"avg", "min", "max", "sum"}) // signed values
+	}
+	inner := &c27Wrap{kind: g.pick(c27InfWraps), inner: s}
+	// x * 1e308 leaves finite values near the overflow threshold: whether their sum overflows
+	// before an opposite infinity is added depends on the order of the additions, so only the
+	// order-free operators are asked there
+	huge := inner.kind == "mulhuge"
+	if g.rnd.IntN(2) == 0 {
+		op := g.pick([]string{"sum", "min", "max", "avg", "count", "group", "stddev", "stdvar", "quantile", "min", "max"})
+		if huge {
+			op = g.pick([]string{"min", "max", "count", "group", "quantile"})
+		}
+		a := g.agg(op, inner)
+		return c27Case{kind: "def/inf/agg", node: a, outer: a, sel: s, inf: true}
+	}
+	fn := g.pick(c27AllFns)
+	if huge {
+		fn = g.pick([]string{"min_over_time", "max_over_time", "count_over_time", "last_over_time", "quantile_over_time", "present_over_time"})
+	}
+	o := g.overTime(fn, int64(1+g.rnd.IntN(5)), inner, true)
+	return c27Case{kind: "def/inf/overtime", node: o, sel: s, ot: o, inf: true}
+}
+
 func (g *c27Gen) defCase() c27Case {
 	if g.rnd.IntN(12) == 0 {
 		return g.timeCase()
+	}
+	if !g.big && g.rnd.IntN(7) == 0 {
+		return g.infCase()
 	}
 	if g.big {
 		return g.bigCase()
